@@ -177,10 +177,35 @@ func (p *printer) natural(t *Tree) string {
 }
 
 var exprConsts = []string{"0", "1", "2", "7", "42", "1.5", "2.0", "0.25", "'abc'", "''", "'it''s'", "'日本'", "TRUE", "FALSE", "3", "10"}
-var exprVars = []string{"a", "b", "c", "x1", "_y", "\"q id\"", "Z", "é1", "nv1"}
+var exprVars = []string{"a", "b", "c", "x1", "_y", "\"q id\"", "Z", "é1", "nv1", "\"NULL\"", "\"and\"", "\"True\"", "\"in\""}
 var exprFuncs = []string{"f", "g", "Max", "Min", "Sum", "If", "Abs", "nfoo"}
 
+// genChain builds a left- or right-nested chain of operators (associativity and precedence probes).
+func genChain(rnd *rand.Rand) *Tree {
+	ops := []string{"AND", "OR", "XOR", "=", "<>", ">", "<", ">=", "<=", "+", "-", "*", "/", "%", "^", "IN", "<<", ">>", "NOTIN"}
+	leaf := func() *Tree {
+		if rnd.Intn(3) == 0 {
+			return &Tree{Kind: "const", Text: []string{"2", "3", "7", "1.5"}[rnd.Intn(4)]}
+		}
+		return &Tree{Kind: "var", Text: []string{"a", "b", "c", "x1"}[rnd.Intn(4)]}
+	}
+	t := leaf()
+	n := 2 + rnd.Intn(3)
+	for i := 0; i < n; i++ {
+		op := ops[rnd.Intn(len(ops))]
+		if rnd.Intn(3) == 0 {
+			t = &Tree{Kind: "bin", Op: op, Args: []*Tree{leaf(), t}} // right-nested: needs parentheses
+		} else {
+			t = &Tree{Kind: "bin", Op: op, Args: []*Tree{t, leaf()}}
+		}
+	}
+	return t
+}
+
 func genTree(rnd *rand.Rand, depth int) *Tree {
+	if depth > 1 && rnd.Intn(6) == 0 {
+		return genChain(rnd)
+	}
 	if depth <= 0 || rnd.Intn(5) == 0 {
 		if rnd.Intn(2) == 0 {
 			return &Tree{Kind: "const", Text: exprConsts[rnd.Intn(len(exprConsts))]}
